@@ -269,6 +269,37 @@ func VerifC08Compose() {
 			vrt.Assert(got[1].ts == t0+d1 && got[1].typ == 8 && got[1].msid == 1 && c08Same(got[1].payload, m2), "format 1 message: delta added, stream id kept")
 			vrt.Assert(got[2].ts == t0+d1+d2 && got[2].typ == 8 && c08Same(got[2].payload, m3), "format 2 message: delta added, length and type kept")
 		}
+	case 3:
+		// a format 3 chunk that starts a new message repeats the preceding delta (RTMP 5.3.1.2.4)
+		cs := 4
+		m1, m2, m3 := vrt.Bytes("m1", 6), vrt.Bytes("m2", 6), vrt.Bytes("m3", 6)
+		t0, d := vrt.U32("t0"), vrt.U32("d")
+		vrt.Assume(t0 < 0xFFFFFF && d < 0xFFFFFF)
+		w = refChunk(w, 0, 6, t0, false, 0, 6, 9, 1, m1[:cs])
+		w = refChunk(w, 3, 6, 0, false, 0, 0, 0, 0, m1[cs:])
+		w = refChunk(w, 2, 6, d, false, 0, 0, 0, 0, m2[:cs])
+		w = refChunk(w, 3, 6, 0, false, 0, 0, 0, 0, m2[cs:])
+		w = refChunk(w, 3, 6, 0, false, 0, 0, 0, 0, m3[:cs]) // new message, everything as before including the delta
+		w = refChunk(w, 3, 6, 0, false, 0, 0, 0, 0, m3[cs:])
+		got, err := c08Run(w, uint32(cs))
+		vrt.Assert(err == errEOFVerif && len(got) == 3, "three messages")
+		if len(got) == 3 {
+			vrt.Assert(got[1].ts == t0+d && c08Same(got[1].payload, m2), "format 2 message: delta added")
+			vrt.Assert(got[2].ts == t0+d+d && got[2].typ == 9 && got[2].msid == 1 && c08Same(got[2].payload, m3), "format 3 message start: the preceding delta is applied again")
+		}
+	case 4:
+		// a format 3 chunk starting a new message right after a format 0 message: the delta is that message's timestamp
+		cs := 8
+		m1, m2 := vrt.Bytes("m1", 3), vrt.Bytes("m2", 3)
+		t0 := vrt.U32("t0")
+		vrt.Assume(t0 < 0x7FFFFF)
+		w = refChunk(w, 0, 6, t0, false, 0, 3, 9, 1, m1)
+		w = refChunk(w, 3, 6, 0, false, 0, 0, 0, 0, m2)
+		got, err := c08Run(w, uint32(cs))
+		vrt.Assert(err == errEOFVerif && len(got) == 2, "two messages")
+		if len(got) == 2 {
+			vrt.Assert(got[1].ts == t0+t0 && c08Same(got[1].payload, m2), "format 3 after format 0: delta equals the format 0 timestamp")
+		}
 	}
 	vrt.Cover("end")
 }
